@@ -404,6 +404,7 @@ impl Ctx {
         case: &Value,
     ) -> Option<Variable> {
         self.st.calls += 1;
+        let kept_args = args.clone();
         let code = match guard(|| f.clone().create_call(args)) {
             Ok(Ok(code)) => code,
             Ok(Err(_)) => {
@@ -429,6 +430,15 @@ impl Ctx {
         verif::set_fuel(None, None);
         uninstall_monitor();
         self.record_mon(origin, case);
+        // cells handed in by the host must still hold values of their declared types
+        for (i, a) in kept_args.iter().enumerate() {
+            if !cells_well_typed(a) {
+                self.st.c01.push(Violation {
+                    sig: format!("C01|cell-content-not-in-declared-type|{origin}|argument#{i}"),
+                    detail: json!({"case": case, "argument_after_call": canon_typed(a)}),
+                });
+            }
+        }
         match r {
             Ok(Ok(v)) => {
                 self.st.values += 1;
